@@ -219,6 +219,7 @@ def br_withdraw_portfolio(c):
                         (known and amount > W.cash(pid, W.pre), 'ValueError'), (known and b.current_dt < W.clock_(pid, W.pre), 'ValueError')]))
     if c.mode == 'conc':
         _other_base_currency(c)
+        _id_that_only_looks_like_a_known_one(c)
     if r != 'ok':
         return refusal_clauses(c, W, W.pre)
     transfer_clauses(c, W, b, pid, w, amount, -1)
@@ -240,6 +241,56 @@ def _other_base_currency(c):
         c.ob('base-currency-%s/transfers-zero-sum-in-the-base-currency-others-stay-zero' % cur,
              AND(EQ(b.cash_balances[cur], 650.0), EQ(b.portfolios['p1'].cash, 350.0), all(b.cash_balances[k] == 0.0 for k in others),
                  b.portfolios['p1'].currency == cur), props=['C01'])
+
+
+def _id_that_only_looks_like_a_known_one(c):
+    """(native only) portfolio ids are strings: the integer 1234 (or numpy's) is NOT the id '1234' - such a request is refused as an
+       unknown portfolio and changes nothing"""
+    import numpy as np
+    import pandas as pd
+    from qstrader.broker.simulated_broker import SimulatedBroker
+    from qstrader.broker.fee_model.zero_fee_model import ZeroFeeModel
+    from qstrader.execution.order import Order
+    t0 = pd.Timestamp('2020-01-06 14:30:00', tz='UTC')
+    for bad in (1234, np.int64(1234)):
+        b = SimulatedBroker(t0, None, None, initial_funds=1000.0, fee_model=ZeroFeeModel())
+        b.create_portfolio('1234', 'numeric-looking id')
+        b.subscribe_funds_to_portfolio('1234', 600.0)
+        before = (dict(b.cash_balances), b.portfolios['1234'].cash, len(b.portfolios['1234'].history), b.open_orders['1234'].qsize())
+        got = [outcome(lambda: b.subscribe_funds_to_portfolio(bad, 10.0))[0], outcome(lambda: b.withdraw_funds_from_portfolio(bad, 10.0))[0],
+               outcome(lambda: b.submit_order(bad, Order(t0, 'EQ:A', 5)))[0]]
+        after = (dict(b.cash_balances), b.portfolios['1234'].cash, len(b.portfolios['1234'].history), b.open_orders['1234'].qsize())
+        c.ob('id-%s-1234-is-not-the-id-1234/refused-as-unknown-nothing-changes' % type(bad).__name__,
+             AND(got == ['KeyError', 'KeyError', 'KeyError'], before == after), props=['C15', 'C01'])
+
+
+def _zero_priced_side_of_a_quote(c):
+    """(native only) a quote whose USED side is exactly 0.0 (a worthless warrant bid, a crossed quote) is a price like any other for
+       an opening fill: the sell is priced at the bid, the buy at the ask, whatever the other side says"""
+    import pandas as pd
+    from qstrader.broker.simulated_broker import SimulatedBroker
+    from qstrader.broker.fee_model.percent_fee_model import PercentFeeModel
+    from qstrader.execution.order import Order
+    t0 = pd.Timestamp('2020-01-06 14:30:00', tz='UTC')
+    for qty, quote, want in ((-64, (0.0, 16.0), 0.0), (30, (12.5, 0.0), 0.0), (-7, (3.25, 0.0), 3.25), (9, (0.0, 4.5), 4.5)):
+        class DH:
+            def get_asset_latest_bid_ask_price(self, dt, asset):
+                return quote
+
+            def get_asset_latest_mid_price(self, dt, asset):
+                return (quote[0] + quote[1]) / 2.0
+        b = SimulatedBroker(t0, None, DH(), initial_funds=100000.0, fee_model=PercentFeeModel(commission_pct=0.001, tax_pct=0.0005))
+        b.create_portfolio('p1', 'x')
+        b.subscribe_funds_to_portfolio('p1', 100000.0)
+        seen = []
+        pf = b.portfolios['p1']
+        real = pf.transact_asset
+        pf.transact_asset = lambda txn: (seen.append(txn), real(txn))[1]
+        r, _ = outcome(lambda: b._execute_order(t0, 'p1', Order(t0, 'EQ:A', qty)))
+        fee = 0.0015 * abs(round(want * qty))
+        c.ob('quote-%s-%s-quantity-%d/filled-at-the-side-of-the-order-with-the-fee-on-that-consideration' % (quote[0], quote[1], qty),
+             AND(r == 'ok', len(seen) == 1, *[AND(EQ(x.price, want), EQ(x.commission, fee), EQ(x.quantity, qty)) for x in seen[:1]],
+                 EQ(pf.cash, 100000.0 - want * qty - fee)), props=['C05'])
 
 
 def _net_zero_book_is_marked(c):
@@ -526,6 +577,8 @@ def br_execute(c):
             c.assume(IMPLIES(W.held_(pid, x), GE(now, W.pclk_(pid, x))))
         elif W.held_(pid, x):
             c.assume(now >= W.pclk_(pid, x))
+    if c.mode == 'conc':
+        _zero_priced_side_of_a_quote(c)
     r0, _ = outcome(lambda: b._execute_order(dt, pid, earlier))
     if r0 != 'ok':
         c.ob('fills-under-the-precondition', False, props=['C04', 'C09', 'C08'])
